@@ -582,11 +582,14 @@ func TestVerifC21(t *testing.T) {
 	}
 
 	// self-test: the oracle must reject a store that evicts the wrong exemplar / orders wrongly.
-	{
+	// (If the preparing operations already fail on the code under test, the self-test is skipped:
+	// the BFS below reports that as a violation.)
+	func() {
 		s := c21New(2, 2, nil)
 		for _, op := range []string{"add A@1=1x", "add A@3=1x"} {
 			if f := s.Apply(op, true); f != nil {
-				t.Fatalf("self-test: unexpected failure on %s: %s", op, f.Message)
+				t.Logf("self-test skipped: %s fails already: %s", op, f.Message)
+				return
 			}
 		}
 		// sabotage the model: pretend the older one had been evicted
@@ -595,8 +598,10 @@ func TestVerifC21(t *testing.T) {
 			t.Fatalf("self-test: oracle does not notice a wrong retained set (%v)", f)
 		}
 		s = c21New(2, 2, nil)
-		s.Apply("add A@3=1x", true)
-		s.Apply("add A@2=1x", true)
+		if s.Apply("add A@3=1x", true) != nil || s.Apply("add A@2=1x", true) != nil {
+			t.Logf("self-test skipped: preparing adds fail already")
+			return
+		}
 		// sabotage the implementation: swap the list order
 		idx := s.ce.exemplars[0].ref
 		idx.oldest, idx.newest = 0, 1
@@ -610,7 +615,7 @@ func TestVerifC21(t *testing.T) {
 		if f := s.observe(); f == nil || f.Signature != "exemplar-list-cycle" {
 			t.Fatalf("self-test: cycle not detected (%v)", f)
 		}
-	}
+	}()
 
 	sweep := c21LabelSweep(r)
 	r.Count("label_length_cases", sweep)
